@@ -1275,7 +1275,10 @@ def approx_cases(ctx):
             t_ref = D @ (np.array([float(v) for v in x]) - np.array(locv))
             rate_ref = float(np.sum(t_ref ** 2 / np.sqrt(t_ref ** 2 + 1e-5))) + float(beta)
             fail, sig = None, ""
-            if ga is not None and abs(1.0 / ga[1] - rate_ref) > 1e-9 * abs(rate_ref):
+            if ga is not None and abs(ga[0] - (n + float(alpha))) > 1e-12 * (n + float(alpha)):
+                fail = "Gamma shape %.12g where the documented approximation has len(x) + alpha = %.12g" % (ga[0], n + float(alpha))
+                sig = "%s|gamma-shape-not-the-documented-approximation" % site(iface)
+            elif ga is not None and abs(1.0 / ga[1] - rate_ref) > 1e-9 * abs(rate_ref):
                 fail = ("LMRF location %s is not zero but the sampler was constructed and ignores it: Gamma rate %.12g where the smoothed penalty of D(x - location) "
                         "gives %.12g" % (locv, 1.0 / ga[1], rate_ref))
                 sig = ("exp.ConjugateApprox|location:nonzero-with-zero-sum-accepted" if iface == "approx" else "legacy.ConjugateApprox|location-ignored") \
